@@ -16,13 +16,14 @@ CLAUSES = {
     1005: "a generated group name collided with a live group",
     1006: "get_group_ids(unknown) did not raise InvalidGroupName",
     1007: "a task belongs to no live group although its group was never cancelled",
+    1008: "the pool knows a group no live request owns (a cancelled group came back) or lacks a live request's group",
     77: "reachability twin",
 }
 FUNCTIONS = ["BaseTaskPool.get_group_ids", "TaskPool._generate_group_name", "TaskPool.apply", "TaskPool._map",
              "SimpleTaskPool.start", "BaseTaskPool._start_task", "TaskGroupRegister.add"]
 
 VOCAB = ("x", "apply-fa-group-0", "map-fa-group-1", "starmap-fb-group-0")
-OPS = ("apply_u_fa", "apply_u_fb", "apply_named", "map_u_fa", "map_named", "starmap_u_fb", "dstarmap_u_fa", "cgroup", "rel", "nop")
+OPS = ("apply_u_fa", "apply_u_fb", "apply_named", "map_u_fa", "map_named", "starmap_u_fb", "dstarmap_u_fa", "cgroup", "rel", "flush", "nop")
 NOP = len(OPS) - 1
 
 
@@ -48,6 +49,8 @@ def _act(w, it, live_names, x, a):
         it.cancel_group(a)
     elif name == "rel":
         it.release(a)
+    elif name == "flush":
+        it.flush(True)
     if r is not None and gen is not None:
         if not re.match("^%s-%s-group-[0-9]+$" % gen, r["group"]):
             w.fail(1004)
@@ -73,6 +76,8 @@ def tpl_groups(size, x1, a1, x2, a2, x3, a3, x4, a4, t, _twin=False):
                 return
             allids = {}
             live = it.live_reqs()
+            if sorted(pool._task_groups) != sorted(r["group"] for r in live):
+                w.fail(1008)
             for r in live:
                 ids = pool.get_group_ids(r["group"])
                 mine = {x["id"] for x in it.workers_of(r)}
@@ -104,6 +109,8 @@ def tpl_groups(size, x1, a1, x2, a2, x3, a3, x4, a4, t, _twin=False):
                     w.settle()
                     idle()
             w.settle()
+            idle()
+            w.drain()          # room is handed on task by task: a spawner that survived its group's cancellation shows now
             idle()
         except Excluded as e:
             w.excluded = str(e)
